@@ -1010,6 +1010,47 @@ fn cancel_in_another_account_then_finalize(w: &mut World, rep: &mut Report, rng:
 	cleanup(w);
 }
 
+/// "Byte-for-byte the transaction the wallet stores for re-posting": the stored transaction of an invoice the wallet
+/// issued and finalized must survive a later, hostile invoice that reuses its slate id (the payer of the first one
+/// knows the id) and that the owner goes on to pay.
+fn hostile_invoice_with_the_id_of_a_finalized_one(w: &mut World, rep: &mut Report, rng: &mut Rng, prop: &str) {
+	fund(w);
+	let case = json!({"job": prop, "scenario": "invoice X issued and finalized by the wallet; the counterparty then sends an invoice of its own with the id X, which the wallet pays"});
+	let r = (|| -> Result<(uuid::Uuid, Vec<u8>), libwallet::Error> {
+		let inv = w.wallets[0].issue_invoice(IssueInvoiceTxArgs { amount: 1_000_000_000 + rng.below(1_000_000_000), ..Default::default() })?;
+		let i2 = w.wallets[1].process_invoice(&inv, InitTxArgs { minimum_confirmations: 1, selection_strategy_is_use_all: false, ..Default::default() })?;
+		w.wallets[1].lock_outputs(&i2)?;
+		let i3 = w.wallets[0].foreign_finalize(&i2)?;
+		let stored = w.wallets[0].get_stored_tx(None, Some(&inv.id))?.and_then(|s| s.tx).map(|t| gser::ser_vec(&t, gser::ProtocolVersion(1)).unwrap_or_default()).unwrap_or_default();
+		let _ = i3;
+		Ok((inv.id, stored))
+	})();
+	let (id, stored) = match r {
+		Ok(x) if !x.1.is_empty() => x,
+		_ => {
+			rep.count("hostile-invoice-finalized-id:setup-failed");
+			cleanup(w);
+			return;
+		}
+	};
+	rep.eval();
+	let r2 = (|| -> Result<(), libwallet::Error> {
+		let mut hostile = w.wallets[1].issue_invoice(IssueInvoiceTxArgs { amount: 300_000_000, ..Default::default() })?;
+		let own = hostile.id;
+		hostile.id = id;
+		let r = w.wallets[0].process_invoice(&hostile, InitTxArgs { minimum_confirmations: 1, selection_strategy_is_use_all: false, ..Default::default() }).and_then(|p| w.wallets[0].lock_outputs(&p));
+		let _ = w.wallets[1].cancel(None, Some(own));
+		r
+	})();
+	let now = w.wallets[0].get_stored_tx(None, Some(&id)).ok().flatten().and_then(|s| s.tx).map(|t| gser::ser_vec(&t, gser::ProtocolVersion(1)).unwrap_or_default()).unwrap_or_default();
+	if now != stored {
+		rep.violation(&format!("{}|stored-transaction-replaced|invoice-reusing-the-id-of-a-finalized-own-invoice", prop), &format!("after paying an invoice that reuses the id of an invoice this wallet had issued and finalized (accepted: {}), the stored transaction of that id is no longer the finalized one ({} -> {} bytes)", r2.is_ok(), stored.len(), now.len()), case);
+	} else {
+		rep.count(&format!("hostile-invoice-finalized-id:stored-transaction-intact({})", if r2.is_ok() { "accepted" } else { "refused" }));
+	}
+	cleanup(w);
+}
+
 /// The command line's order again (reserve with the reply, then finalize), with a reply whose public excess was
 /// replaced by the excess of a kernel that is already on chain. Finalization must fail - and the pending send must
 /// still be cancellable afterwards, also after the wallet has refreshed (send without change output: such sends
@@ -1283,6 +1324,9 @@ pub fn run(a: &Args, prop: &'static str) {
 		late_lock_cli_order(&mut w, &mut rep, &mut rng, prop, a.shard % 2 == 1);
 		if a.shard % 3 == 1 {
 			refused_reply_with_an_on_chain_excess(&mut w, &mut rep, prop);
+		}
+		if a.shard % 3 == 2 {
+			hostile_invoice_with_the_id_of_a_finalized_one(&mut w, &mut rep, &mut rng, prop);
 		}
 	}
 	if proof_focus {
